@@ -81,9 +81,9 @@ def run(ctx):
             if l.get("k") == "field" and l["name"].endswith("_file_data_id"):
                 src = None
                 for x in hirq.walk(a["r"]):
-                    if x.get("k") == "index" and hirq.lit_int(x["i"]) is not None and hirq.render(x["e"]).endswith(".unused"):
+                    if x.get("k") == "index" and hirq.lit_int(x["i"]) is not None and re.search(r"(^|\.)unused$", hirq.render(x["e"])):
                         src = 1 + hirq.lit_int(x["i"])
-                    elif x.get("k") == "field" and x["name"] == "something":
+                    elif (x.get("k") == "field" and x["name"] == "something") or (x.get("k") == "path" and x["res"].get("local") == "something"):
                         src = 0
                 rslot[l["name"]] = src
         worder = []
